@@ -93,6 +93,8 @@ def run_program(e, res, seed, fam, index, nsteps, upto=None):
             key = NP_KEYS[int(rng.integers(0, len(NP_KEYS)))]
         else:
             key = keys[int(rng.integers(0, len(keys)))]
+        if fam == 'fn' and ctx.d == 3 and step == 1:
+            key = 'function.curl'     # only defined in 3-D: make sure every 3-D program presents it once
         if key == 'operator.setitem' and fam == 'fn':
             continue
         try:
